@@ -3,7 +3,7 @@ CONSTANTS
   KindIds = {1, 3, 6}
   MaxLen = 2
   MaxItems = 3
-  MaxW = 4
+  MaxW = 3
   ND = 2
   Orig = FALSE
   GW <- MCGW
